@@ -335,6 +335,16 @@ def getitem(interp, obj, idx):
         i = norm_index(interp, idx, n)
         _, rest = ops.split_at(interp, obj.rope, i)
         one, _ = ops.split_at(interp, rest, 1)
+        one = ops.norm(one)
+        if len(one) != 1 or isinstance(one[0], Blk):
+            # blocks of symbolic length around the element (e.g. an optional zone that is empty on this path)
+            elems = [e for e in one if not isinstance(e, Blk)]
+            blks = [e for e in one if isinstance(e, Blk)]
+            if len(elems) == 1 and all(interp.ctx.valid(ops.elem_term(e.n) == 0) for e in blks):
+                return wrap_elem(elems[0])
+            if not elems and len(blks) == 1 and interp.ctx.valid(ops.elem_term(blks[0].n) == 1):
+                return wrap_elem(ops.refine_to_elements(interp.ctx, blks[0], 1)[0])
+            raise Unsupported("element access could not isolate one octet")
         return wrap_elem(one[0])
     if isinstance(obj, (PyList, PyDeque)) or isinstance(obj, tuple):
         items = obj if isinstance(obj, tuple) else obj.items
